@@ -96,6 +96,14 @@ static inline _Bool bl_iss_read_word(bl_iss *in, bl_sv *w) {
   return 1;
 }
 static inline _Bool bl_sv_eq(bl_sv a, bl_sv b) { if (a.n != b.n) return 0; for (size_t i = 0; i < a.n; i++) if (a.p[i] != b.p[i]) return 0; return 1; }
+/* s.compare(pos, len, t): lexicographic comparison of s.substr(pos, len) with t; std::out_of_range when pos > s.size() */
+static inline int bl_sv_compare_sub(bl_sv s, size_t pos, size_t len, bl_sv t) {
+  if (pos > s.n) { bl_throw_std(); return 0; }
+  size_t n = s.n - pos; if (len < n) n = len;
+  size_t m = n < t.n ? n : t.n;
+  for (size_t i = 0; i < m; i++) { unsigned char a = (unsigned char)s.p[pos + i], b = (unsigned char)t.p[i]; if (a != b) return a < b ? -1 : 1; }
+  return n < t.n ? -1 : (n > t.n ? 1 : 0);
+}
 static inline size_t bl_sv_find_sv(bl_sv h, bl_sv nd) {
   if (nd.n > h.n) return BL_NPOS;
   for (size_t i = 0; i + nd.n <= h.n; i++) { size_t j = 0; while (j < nd.n && h.p[i + j] == nd.p[j]) j++; if (j == nd.n) return i; }
